@@ -21,6 +21,7 @@ from typing import Any
 from exabgp.bgp.message import Message
 from exabgp.bgp.message.direction import Direction
 from exabgp.bgp.message.update import collection as collection_module
+from exabgp.bgp.message.update.nlri import collection as nlri_collection_module
 from exabgp.bgp.message.update.attribute import Attribute, AttributeCollection
 from exabgp.bgp.message.update.attribute.community.initial.communities import Communities
 from exabgp.bgp.message.update.attribute.generic import GenericAttribute
@@ -132,7 +133,7 @@ def tune_attr(cfg, neighbor, neg, base: str, target: int, comm_share: float) -> 
 
 
 class LogSpy:
-    """Stands for the module-level `log` of update/collection.py while `messages` runs: records
+    """Stands for the module-level `log` of update/collection.py and update/nlri/collection.py while `messages` runs: records
     `critical` calls (the code's only trace of its silent `return`), forwards nothing."""
 
     def __init__(self) -> None:
@@ -202,14 +203,14 @@ class Built:
         kw: dict = {}
         for nid, spec, nlri, nh, nhtext in sa:
             fam = spec[0]
-            v4 = int(nlri.afi == AFI.ipv4 and nlri.safi in (SAFI.unicast, SAFI.multicast) and nh.afi == AFI.ipv4)
+            v4 = int(nlri.afi == AFI.ipv4 and nlri.safi == SAFI.unicast and nh.afi == AFI.ipv4)
             h = nh_ids.setdefault(nhtext, len(nh_ids) + 1)
             items_a.append(f'{nid}:{len(nlri.pack_nlri(neg))}:{fam}:{v4}:{h}:{len(nh.pack_ip())}')
             if not v4 and fam in negotiated:
                 ka.setdefault(nlri.family().afi_safi(), True)
         for nid, spec, nlri, _, _ in sw:
             fam = spec[0]
-            v4 = int(nlri.afi == AFI.ipv4 and nlri.safi in (SAFI.unicast, SAFI.multicast))
+            v4 = int(nlri.afi == AFI.ipv4 and nlri.safi == SAFI.unicast)
             items_w.append(f'{nid}:{len(nlri.pack_nlri(neg))}:{fam}:{v4}:0:0')
             if not v4 and fam in negotiated:
                 kw.setdefault(nlri.family().afi_safi(), True)
@@ -246,7 +247,10 @@ def run_impl(case: dict) -> dict:
     line = b.model_line()
     spy = LogSpy()
     saved = collection_module.log
+    saved_nlri = getattr(nlri_collection_module, 'log', None)
     collection_module.log = spy
+    if saved_nlri is not None:  # the MP generators log through their own module-level name
+        nlri_collection_module.log = spy
     raws: list[bytes] = []
     status = 'ok'
     error = ''
@@ -256,6 +260,8 @@ def run_impl(case: dict) -> dict:
                 raws.append(bytes(m))
         finally:
             collection_module.log = saved
+            if saved_nlri is not None:
+                nlri_collection_module.log = saved_nlri
     except RuntimeError as e:
         status, error = 'raised', f'RuntimeError: {e}'
     except Exception as e:  # struct.error from the 16-bit fields, or anything else
@@ -263,8 +269,6 @@ def run_impl(case: dict) -> dict:
 
         status = 'toolong' if isinstance(e, struct.error) else 'error'
         error = ('struct.error' if isinstance(e, struct.error) else type(e).__name__) + f': {e}'
-    if status == 'ok' and spy.critical_calls:
-        status = 'noroom'
 
     # ---- lookup tables from the request (wire forms computed by the harness, not by ExaBGP)
     addpath = {f: b.neg.addpath.send(*FAMS[f]) for f in FAMS}
@@ -371,7 +375,7 @@ def run_impl(case: dict) -> dict:
                 if key[0] == 2 and key[1] in changed_a:
                     continue
                 # a prefix the attributes leave no room for may be silently left out; any other must be there
-                if status in ('ok', 'noroom') and fits[nid]:
+                if status == 'ok' and fits[nid]:
                     verdict.append({'fail': 'announce-missing', 'id': nid, 'fam': key[0], 'status': status, 'nlri': key[1].hex()})
             elif got_a[key] != {nh}:
                 verdict.append({'fail': 'wrong-nexthop', 'id': nid, 'fam': key[0], 'got': sorted(got_a[key]), 'want': nh})
@@ -380,7 +384,7 @@ def run_impl(case: dict) -> dict:
                 verdict.append({'fail': 'announce-not-requested', 'fam': key[0], 'nlri': key[1].hex()})
         if case['iw']:
             for key, nid in want_w.items():
-                if key not in got_w and not (key[0] == 2 and key[1] in changed_w) and status in ('ok', 'noroom') and fits[nid]:
+                if key not in got_w and not (key[0] == 2 and key[1] in changed_w) and status == 'ok' and fits[nid]:
                     verdict.append({'fail': 'withdraw-missing', 'id': nid, 'fam': key[0], 'status': status, 'nlri': key[1].hex()})
         for key in got_w:
             if (key not in want_w and key[1] not in changed_w) or not case['iw']:
@@ -390,6 +394,7 @@ def run_impl(case: dict) -> dict:
         'all_fit': all(fits[i] for i in wanted_ids),
         'line': line,
         'status': status,
+        'logged': spy.critical_calls,
         'error': error,
         'lens': [len(r) for r in raws],
         'canon': canon,
@@ -455,9 +460,10 @@ def model_out(lines: list[str]) -> list[dict]:
     res = []
     for o in common.run_driver('drv_pack', lines):
         if o == 'bad-op':
-            res.append({'status': 'bad-op', 'canon': []})
+            res.append({'status': 'bad-op', 'model_status': 'bad-op', 'logged': -1, 'canon': []})
             continue
         parts = o.split(' | ')
         head = parts[0].split(' ')
-        res.append({'status': head[0], 'canon': parts[1:]})
+        # the silent early `return` (noroom) is, seen from outside, a normal end with one log line
+        res.append({'status': 'ok' if head[0] == 'noroom' else head[0], 'model_status': head[0], 'logged': int(head[2]), 'canon': parts[1:]})
     return res
